@@ -98,16 +98,30 @@ def all_exprs(proc, with_windows=False):
 
 
 class Canon:
-    def __init__(self):
+    def __init__(self, names=True, types=True):
         self.syms = {}
         self.procs = {}
         self.out = []
+        self.names = names
+        self.types = types
 
     def sym(self, s):
         k = id(s)
         if k not in self.syms:
-            self.syms[k] = f"{s.name()}%{len(self.syms)}"
+            self.syms[k] = f"{s.name() if self.names else ''}%{self._fresh()}"
         return self.syms[k]
+
+    def _fresh(self):
+        self.counter = getattr(self, "counter", -1) + 1
+        return self.counter
+
+    def bind(self, s):
+        """a binding occurrence: fresh number even if the Sym object was bound before
+        (rewrites may reuse one Sym for sibling binders)"""
+        if self.names:
+            return self.sym(s)
+        self.syms[id(s)] = f"%{self._fresh()}"
+        return self.syms[id(s)]
 
     def ty(self, t):
         if isinstance(t, T.Tensor):
@@ -123,7 +137,11 @@ class Canon:
         return f"iv({self.e(a.lo)},{self.e(a.hi)})"
 
     def e(self, e, types=True):
-        t = f":{self.ty(e.type)}" if types else ""
+        t = f":{self.ty(e.type)}" if (types and self.types) else ""
+        if not self.types and isinstance(e, LoopIR.USub) and isinstance(e.arg, LoopIR.Const):
+            return f"C({-e.arg.val!r})"
+        if not self.types and isinstance(e, LoopIR.Const) and isinstance(e.val, (int, float)) and not isinstance(e.val, bool):
+            return f"C({float(e.val)!r})"
         if isinstance(e, LoopIR.Read):
             return f"R({self.sym(e.name)};{','.join(self.e(i) for i in e.idx)}){t}"
         if isinstance(e, LoopIR.Const):
@@ -145,33 +163,41 @@ class Canon:
     def s(self, s):
         o = self.out
         if isinstance(s, (LoopIR.Assign, LoopIR.Reduce)):
-            o.append(f"{type(s).__name__}({self.sym(s.name)};{self.ty(s.type)};{','.join(self.e(i) for i in s.idx)};{self.e(s.rhs)})")
+            sty = self.ty(s.type) if self.types else ""
+            o.append(f"{type(s).__name__}({self.sym(s.name)};{sty};{','.join(self.e(i) for i in s.idx)};{self.e(s.rhs)})")
         elif isinstance(s, LoopIR.WriteConfig):
             o.append(f"WC({s.config.name()}.{s.field};{self.e(s.rhs)})")
         elif isinstance(s, LoopIR.Pass):
             o.append("Pass")
         elif isinstance(s, LoopIR.If):
             o.append(f"If({self.e(s.cond)})" + "{")
+            sv = dict(self.syms)
             for x in s.body:
                 self.s(x)
+            self.syms = dict(sv)
             o.append("}else{")
             for x in s.orelse:
                 self.s(x)
+            self.syms = sv
             o.append("}")
         elif isinstance(s, LoopIR.For):
             lo, hi = self.e(s.lo), self.e(s.hi)
-            o.append(f"For({self.sym(s.iter)};{lo};{hi};{type(s.loop_mode).__name__})" + "{")
+            sv = dict(self.syms)
+            o.append(f"For({self.bind(s.iter)};{lo};{hi};{type(s.loop_mode).__name__})" + "{")
             for x in s.body:
                 self.s(x)
+            self.syms = sv
             o.append("}")
         elif isinstance(s, LoopIR.Alloc):
-            o.append(f"Alloc({self.sym(s.name)};{self.ty(s.type)};{s.mem.name() if s.mem else None})")
+            ty = self.ty(s.type)
+            o.append(f"Alloc({self.bind(s.name)};{ty};{s.mem.name() if s.mem else None})")
         elif isinstance(s, LoopIR.Free):
             o.append(f"Free({self.sym(s.name)})")
         elif isinstance(s, LoopIR.Call):
             o.append(f"Call({self.proc_ref(s.f)};{','.join(self.e(a) for a in s.args)})")
         elif isinstance(s, LoopIR.WindowStmt):
-            o.append(f"WS({self.sym(s.name)};{self.e(s.rhs)})")
+            rhs = self.e(s.rhs)
+            o.append(f"WS({self.bind(s.name)};{rhs})")
         else:
             o.append(f"?{type(s).__name__}")
 
@@ -179,7 +205,7 @@ class Canon:
         k = id(f)
         if k not in self.procs:
             self.procs[k] = None  # reserve (recursion impossible in Exo, but be safe)
-            sub = Canon()
+            sub = Canon(self.names, self.types)
             self.procs[k] = f"{f.name}<" + sub.proc(f) + ">"
         return self.procs[k]
 
@@ -199,10 +225,10 @@ class Canon:
         return "\n".join(o)
 
 
-def canon(proc):
+def canon(proc, names=True, types=True):
     """alpha-canonical text of a LoopIR.proc (names kept, Syms numbered by
     first occurrence, srcinfo dropped, callees inlined)"""
-    return Canon().proc(proc)
+    return Canon(names, types).proc(proc)
 
 
 # ---------------------------------------------------------------------------
